@@ -2,6 +2,7 @@
 import re
 
 from .. import paths
+from ..ir import AnalysisError
 from ..paths import fmt, ptr_parts
 
 CW = {(0, 1), (1, 3), (3, 2), (2, 0)}
@@ -256,7 +257,51 @@ def check_two_calls(chk, m, fn, F):
     except Top as t:
         chk.unknown("Q5.two-calls", "rotenc_decode; rotenc_decode", "outside the bit-vector fragment: %s" % t, fn.loc)
         return
-    wi, wc = len(vecs["internal_count"]), len(vecs["count"])
+    wi = len(vecs["internal_count"])
+    # "count" is what rotenc_count() returns: taken from the API (a witness of the header's inline function evaluated over the
+    # field vectors), so it does not matter how the object stores it
+    from .. import build as _build
+    from ..domains.bvexec import expr_bv as _expr_bv
+    try:
+        w = _build.compile_text("c19_count_witness.c", "#include <librfn/rotenc.h>\nuint8_t w_count(rotenc_t *r) { return rotenc_count(r); }\n",
+                                inline_except=())
+        wp = [q for q in paths.enumerate_paths(w.fn("w_count"), w) if not paths.is_assert_fail_path(q)]
+        if len(wp) != 1 or wp[0].ret is None:
+            raise Top("rotenc_count is not a single expression")
+        by_off = {off: name for name, (off, size) in F.items()}
+
+        def count_of(vs):
+            def atom(e):
+                if e[0] == "ld":
+                    r_, o_, v_ = ptr_parts(e[1])
+                    if r_ == ("arg", 0) and not v_ and o_ in by_off:
+                        return vs[by_off[o_]]
+                return None
+            v = _expr_bv(wp[0].ret, bv, atom)
+            return bv.trunc(v, 8) if len(v) >= 8 else bv.zext(v, 8)
+        count_of(vecs)
+        count14_of = None
+        try:
+            w14 = _build.api_view("c19_count14_witness.c", "#include <librfn/rotenc.h>\nuint16_t w_count14(rotenc_t *r) { return rotenc_count14(r); }\n",
+                                  ["librfn/rotenc.c"], ["w_count14"])
+            wp14 = [q for q in paths.enumerate_paths(w14.fn("w_count14"), w14) if not paths.is_assert_fail_path(q)]
+            if len(wp14) == 1 and wp14[0].ret is not None:
+                def count14_of(vs, ret=wp14[0].ret):
+                    def atom(e):
+                        if e[0] == "ld":
+                            r_, o_, v_ = ptr_parts(e[1])
+                            if r_ == ("arg", 0) and not v_ and o_ in by_off:
+                                return vs[by_off[o_]]
+                        return None
+                    v = _expr_bv(ret, bv, atom)
+                    return bv.trunc(v, 16) if len(v) >= 16 else bv.zext(v, 16)
+                count14_of(vecs)
+        except (Top, AnalysisError, KeyError):
+            count14_of = None
+    except (Top, AnalysisError, KeyError) as t:
+        chk.unknown("Q5.two-calls", "rotenc_count", "rotenc_count() is outside the bit-vector fragment: %s" % t, fn.loc)
+        return
+    wc = 8
 
     def show(f):
         asg = B.sat_one(f) or {}
@@ -282,9 +327,15 @@ def check_two_calls(chk, m, fn, F):
             chk.ob("Q5.two-calls", inst_id + " step", bad == 0,
                    "whatever the object held, the second call moves internal_count by %+d" % want if bad == 0 else
                    "the second call must move internal_count by %+d but does not, e.g. starting from %s" % (want, show(bad)), fn.loc, fn.name)
+            if y == 0 and x != 0 and count14_of is not None:
+                want14 = bv.AND(bv.zext(bv.lshr(fin["internal_count"], 2), 16), bv.const(0x3fff, 16))
+                bad = B.AND(here, B.NOT(bv.eq(count14_of(fin), want14)))
+                chk.ob("Q5.two-calls", inst_id + " count14 at rest", bad == 0,
+                       "right after arriving at the detent rotenc_count14() is floor(internal_count / 4) mod 2^14" if bad == 0 else
+                       "rotenc_count14() is not the position right after arriving at the detent, e.g. starting from %s" % show(bad), fn.loc, fn.name)
             if y == 0 and x != 0:
                 # ARRIVING at the detent (a decoder may skip the latch while it rests there; that case needs the invariant of Q2)
-                bad = B.AND(here, B.NOT(bv.eq(fin["count"], bv.trunc(bv.lshr(fin["internal_count"], 2), wc))))
+                bad = B.AND(here, B.NOT(bv.eq(count_of(fin), bv.trunc(bv.lshr(fin["internal_count"], 2), wc))))
                 chk.ob("Q5.two-calls", inst_id + " latch", bad == 0,
                        "arriving at the detent latches count = floor(internal_count / 4)" if bad == 0 else
                        "count is not the latched position after arriving at the detent, e.g. starting from %s" % show(bad), fn.loc, fn.name)
